@@ -65,7 +65,7 @@ func (n *Net) walk(w *vt.Writer, a Arrival, j string) Outcome {
 // hostEvent logs what a host received.
 func (n *Net) hostEvent(w *vt.Writer, o Outcome, j string) {
 	w.Emit(map[string]any{"ev": "host", "j": j, "as": n.T.ASes[o.HostAS].Name,
-		"addr": udpStr(o.HostAddr), "pkt": n.C.Proj(o.Raw, false), "m": ScmpProj(n.C, o.Raw)})
+		"addr": udpStr(o.HostAddr), "pkt": n.C.Proj(o.Raw, "none"), "m": ScmpProj(n.C, o.Raw)})
 }
 
 // Run executes one journey: request from a host in src to a host in dst along p, the reply of
@@ -88,7 +88,10 @@ func (n *Net) Run(w *vt.Writer, src, dst int, p combinator.Path, o JourneyOpts) 
 		HBH: o.HBH, E2E: o.E2E, TC: uint8(o.Rng.Intn(256)), Flow: uint32(o.Rng.Intn(1 << 20)),
 		Rng: o.Rng})
 	if err != nil {
-		vt.Fatal("build: %v", err)
+		// e.g. more than 64 hop fields: the combinator returned a path no host can put on the wire
+		w.Emit(map[string]any{"ev": "skip", "what": "unsendable", "why": err.Error(),
+			"src": n.T.ASes[src].Name, "dst": n.T.ASes[dst].Name, "nifs": len(p.Metadata.Interfaces)})
+		return
 	}
 	if o.Mutate != nil {
 		raw = o.Mutate(raw)
@@ -105,7 +108,7 @@ func (n *Net) Run(w *vt.Writer, src, dst int, p combinator.Path, o JourneyOpts) 
 	w.Emit(map[string]any{"ev": "reset", "id": o.ID, "mode": o.Mode, "topo": n.T.Name,
 		"src": n.T.ASes[src].Name, "dst": n.T.ASes[dst].Name, "sh": shs, "dh": dhs,
 		"ifs": n.IfList(p), "pt": o.PT, "l4": o.L4, "rev": o.Rev, "desc": desc,
-		"pkt": n.C.Proj(raw, true)})
+		"pkt": n.C.Proj(raw, "full")})
 	if len(p.Metadata.Interfaces) == 0 {
 		return // src == dst: no router involved
 	}
@@ -189,6 +192,6 @@ func (n *Net) reply(w *vt.Writer, got []byte, o JourneyOpts) ([]byte, bool) {
 		w.Emit(map[string]any{"ev": "hosterr", "what": "build reply: " + err.Error()})
 		return nil, false
 	}
-	w.Emit(map[string]any{"ev": "reply", "how": how, "pkt": n.C.Proj(raw, true)})
+	w.Emit(map[string]any{"ev": "reply", "how": how, "pkt": n.C.Proj(raw, "full")})
 	return raw, true
 }
